@@ -23,6 +23,19 @@ CLAIMED = {
          "is a violation. Held on the executions observed.",
          "Trusted: ASan/memcheck/Miri; HAL (operation, query) pairs in this revision, higher layers are exercised with exact windows inside the scheme-level checks where wired.",
          "DESIGN.md §C12"),
+ "C15": ("exploration", "runtime monitor: homomorphic execution vs plain Rust word semantics; exact-phase decryption of every GGSW cell; enumerated grids",
+         "All 11 word circuits are executed homomorphically (direct, multi-thread and packed->bootstrap->op paths) on boundary and random words incl. every shift amount 0..63; bit "
+         "extraction, byte/half-word splice, sign extension, cswap, blind selection/retrieval/rotation are checked on ALL coefficients; circuit bootstrapping results (constant and exponent mode) "
+         "are decrypted cell by cell with an exact i128 phase; every (start,end) of partial preparation (u8/u16/u32) goes through three entry points; 2-6 step programs are chained through re-bootstrapping. "
+         "Held on the executions observed.",
+         "Trusted: the clear secrets read through the verif-hooks accessor; tolerances calibrated on the pinned tree (worst 0.40 of tolerance); suite parameters plus three further key layouts.",
+         "DESIGN.md §C15"),
+ "C20": ("exploration", "runtime monitor: byte comparison across thread counts, offline exactly-once checker over a hook event log, perturbed schedules, shared-Module stress, ThreadSanitizer",
+         "Every multi-thread entry point is compared byte for byte with its sequential counterpart for thread counts 1..=32, 33, 40, 64 using exact-size scratch windows; the hook event log of each "
+         "run is checked offline (each index started and ended exactly once on one worker, nothing out of range); seeded yield/sleep tables and oversubscription perturb the schedules and the number of "
+         "distinct interleavings observed is reported; T threads share one Module/keys/ciphertexts and are replayed alone; a reduced workload runs under ThreadSanitizer. Held on the schedules observed.",
+         "Trusted: the hook call sites (add-only, no-op without callback); TSan does not see the assembly kernels; Module's unsafe Sync impl is exercised, not proved.",
+         "DESIGN.md §C20"),
  "C17": ("exploration", "sanitizers: AddressSanitizer (poisoned neighbours), valgrind memcheck, Miri, canary guards over the HAL catalogue",
          "The HAL catalogue (83 operations, N from 1, odd limb counts, 1..3 columns, size < capacity, exact scratch windows carved from guarded allocations) runs under ASan on all four backends, "
          "under memcheck on all four (covers the global_asm FFT16 kernels) and under Miri on the reference backends; any report, canary change or bounds panic is a violation. "
